@@ -100,3 +100,32 @@ package dsstate
 //@   ensures [one-commit-attempt] batchCommitN == old(batchCommitN) + 1
 //@   ensures [failure-is-reported] err == nil <==> batchCommitOK == old(batchCommitOK) + 1
 //@   modifies batchCommitN, batchCommitOK
+
+// ---- reading the pinset back (C01 "holds exactly the result", C14): an entry is reported for a CID exactly when
+// the store has one under that CID's key, decoded from the stored bytes and carrying the CID asked for ----
+//@ spec func dec(b []byte) api.Pin = uf("pinDecoding", "api.Pin", b)
+//@ ghost var lastDecodedFrom []byte
+//@ func (st *State) deserializePin
+//@   property C01 C14
+//@   records lastDecodedFrom = buf
+//@   ensures res != nil && fresh(res) && res.Cid == c
+//@   ensures [existing-pins-untouched] forall q *api.Pin :: !fresh(q) ==> *q == old(*q)
+//@   modifies heap(api.Pin)
+
+//@ extern ds.Read.Has(key)
+//@   ensures err == nil ==> (res <==> haskey(dstore, key))
+//@   modifies nothing
+
+//@ func (st *State) Get
+//@   property C01 C14
+//@   ensures [absent-is-not-found] !haskey(dstore, keyOf(st, c)) ==> err == state.ErrNotFound
+//@   ensures [found-is-the-stored-entry] err == nil ==> haskey(dstore, keyOf(st, c)) && res != nil && res.Cid == c && lastDecodedFrom == dstore[keyOf(st, c)]
+//@   ensures [an-error-carries-no-pin] err != nil ==> res == nil
+//@   ensures [existing-pins-untouched] forall q *api.Pin :: !fresh(q) ==> *q == old(*q)
+//@   modifies lastDecodedFrom, heap(api.Pin)
+
+//@ func (st *State) Has
+//@   property C01 C14
+//@   ensures [answers-for-the-cids-key] err == nil ==> (res <==> haskey(dstore, keyOf(st, c)))
+//@   ensures [an-error-is-not-a-yes] err != nil ==> !res
+//@   modifies nothing
